@@ -736,6 +736,11 @@ func (g *Gen) build(t *rapid.T, kind string) *spec {
 	case "lock":
 		coin, bal := g.coinOf(t, "lockCoin", u.Addr)
 		due := int64(h) + int64(U(t, "lockDue", 42)) - 1
+		if ff := g.V.Exp.FrozenFunds; len(ff) > 0 && U(t, "lockDueExisting", 3) == 0 {
+			// the due block of funds that are already frozen (an unbond, a move, an earlier lock): the
+			// new fund joins a record that exists in the tree and may not be in memory
+			due = int64(ff[U(t, "lockDueOf", len(ff))].Height) + int64(U(t, "lockDuePm", 3)) - 1
+		}
 		s.typ = tx.TypeLock
 		s.data = tx.LockData{DueBlock: uint32(due), Coin: types.CoinID(coin), Value: smallAmount(t, "lockVal", bal)}
 	case "candOn", "candOff", "editCand", "editCandKey", "editCandCommission", "setHalt", "voteCommission", "voteUpdate":
